@@ -25,6 +25,115 @@ Local Open Scope nat_scope.
 Lemma rel_group n a a' : a ≃ a' -> RGroup n a ≃ RGroup n a'.
 Proof. intros (H1 & H2 & H3). split; [apply req_group; assumption|split; simpl; congruence]. Qed.
 
+(* ---------- what is emitted for the operand of a quantifier can stand as an operand ---------- *)
+Definition not_fo (e : sx) : Prop := op_eqb (sx_op e) OpFlagOnlyGroup = false.
+
+(* what is emitted for an expression that elaborates and is not a flag-only group is not a flag-only group either *)
+Definition Q (e : sx) : Prop :=
+  forall st r, den e st = Some r -> not_fo e -> forall f, fst (walk_a true e) = [f] -> not_fo f.
+
+Lemma chars_of_bytes_ops s f : chars_of_bytes s = [f] -> not_fo f.
+Proof. destruct s as [|a [|b r]]; simpl; intros H; inversion H; reflexivity. Qed.
+
+Lemma table_tree_ops s f : table_tree s = [f] -> not_fo f.
+Proof.
+  unfold table_tree. destruct (String.eqb s "\]\["); [discriminate|]. destruct (String.eqb s "\]"); intros H; inversion H; reflexivity.
+Qed.
+
+Ltac leafQ := match goal with Hf : fst (walk_a true _) = [_], Hn : not_fo _ |- _ => cbn [walk_a fst] in Hf; inversion Hf; subst; exact Hn end.
+
+Theorem emit_not_flagonly e : Q e.
+Proof.
+  induction e as [e IH] using sx_ind_size. destruct e as [o v args]. intros st r Hd Hn f Hf.
+  assert (IHin : forall y, In y args -> Q y).
+  { intros y Hy. apply IH. rewrite sx_size_X. pose proof (sizes_in y args Hy). lia. }
+  destruct o; try (simpl in Hd; discriminate Hd).
+  - (* Concat *) cbn [walk_a fst] in Hf. inversion Hf. reflexivity.
+  - (* Dot *) leafQ.
+  - (* Alt *) cbn [walk_a] in Hf.
+    destruct (allChars (X OpAlt v args) && negb (true && hasClassMeta (X OpAlt v args))); [inversion Hf; reflexivity|].
+    destruct (factorPrefixSuffix true (X OpAlt v args)).
+    + destruct args as [|a0 [|a1 [|? ?]]]; try (inversion Hf; reflexivity).
+      destruct (Nat.ltb _ _); destruct (_ && _); inversion Hf; reflexivity.
+    + cbn [fst] in Hf. inversion Hf. reflexivity.
+  - (* Star *) destruct args as [|y [|? ?]]; try (simpl in Hd; discriminate Hd). cbn [walk_a] in Hf.
+    destruct (walk_a true y). cbn [fst wrap1] in Hf. inversion Hf. reflexivity.
+  - (* Plus *) destruct args as [|y [|? ?]]; try (simpl in Hd; discriminate Hd). cbn [walk_a] in Hf.
+    destruct (walk_a true y). cbn [fst wrap1] in Hf. inversion Hf. reflexivity.
+  - (* Question *) destruct args as [|y [|? ?]]; try (simpl in Hd; discriminate Hd). cbn [walk_a] in Hf.
+    destruct (walk_a true y). cbn [fst wrap1] in Hf. inversion Hf. reflexivity.
+  - (* NonGreedy *)
+    destruct args as [|q [|? ?]]; try (simpl in Hd; discriminate Hd); try (destruct q as [? ? [|? ?]]; simpl in Hd; discriminate Hd).
+    cbn [walk_a] in Hf. destruct (walk_a true q) as [xs sc] eqn:Ew. destruct (dropped_repeat q) eqn:Edr; cbn [andb fst] in Hf.
+    + (* the repeat is not printed: what is emitted is what its operand emitted, or nothing, or the kept x{0} *)
+      destruct q as [qo qv qa]. destruct qo; try discriminate Edr. destruct qa as [|y [|rr [|? ?]]]; try discriminate Edr.
+      cbn [den] in Hd. cbn [is_quant andb] in Hd.
+      destruct (op_eqb (sx_op y) OpFlagOnlyGroup) eqn:Ey; [discriminate Hd|]. cbn [negb] in Hd.
+      destruct (den y st) as [[y' st1]|] eqn:Edy; [|discriminate Hd].
+      cbn [walk_a] in Ew. destruct (walk_a true y) as [ys sy] eqn:Ewy. subst xs. unfold wrap1 in Ew.
+      destruct (String.eqb (sx_val rr) "{0,1}"); [inversion Ew; reflexivity|].
+      destruct (String.eqb (sx_val rr) "{1,}"); [inversion Ew; reflexivity|].
+      destruct (String.eqb (sx_val rr) "{0,}"); [inversion Ew; reflexivity|].
+      destruct (String.eqb (sx_val rr) "{0}").
+      { destruct (true && hasCapture y); inversion Ew. reflexivity. }
+      destruct (String.eqb (sx_val rr) "{1}").
+      { inversion Ew; subst ys.
+        assert (Qy : Q y). { apply IH. rewrite !sx_size_X. cbn [sizes]. rewrite sx_size_X. cbn [sizes]. lia. }
+        apply (Qy st (y', st1) Edy Ey f). rewrite Ewy. reflexivity. }
+      inversion Ew. reflexivity.
+    + unfold wrap1 in Hf. inversion Hf. reflexivity.
+  - (* Caret *) leafQ.
+  - (* Dollar *) leafQ.
+  - (* Char *) leafQ.
+  - (* Quote *) leafQ.
+  - (* EscapeChar *) cbn [walk_a] in Hf. destruct (mem_s v removable_escapes); inversion Hf; reflexivity.
+  - (* EscapeMeta *) leafQ.
+  - (* EscapeOctal *) leafQ.
+  - (* EscapeHex *) leafQ.
+  - (* CharClass *) cbn [walk_a] in Hf. destruct (simplifyCharClass true (X OpCharClass v args)) as [s|] eqn:Es.
+    + destruct (lookup_s v class_table) eqn:El.
+      * cbn [fst] in Hf. apply (table_tree_ops _ _ Hf).
+      * cbn [fst] in Hf. unfold simplifyCharClass in Es. cbn [sx_val sx_args] in Es. rewrite El in Es.
+        destruct args as [|it [|? ?]]; [discriminate Es| |destruct it as [[] ? ?]; discriminate Es].
+        inversion Hf; subst f. destruct it as [io iv ia]. destruct io; try discriminate Es; reflexivity.
+    + cbn [fst] in Hf. inversion Hf. reflexivity.
+  - (* NegCharClass *) cbn [walk_a] in Hf. destruct (simplifyNegCharClass (X OpNegCharClass v args)) as [s|].
+    + cbn [fst] in Hf. apply (table_tree_ops _ _ Hf).
+    + cbn [fst] in Hf. inversion Hf. reflexivity.
+  - (* Repeat *) destruct args as [|y [|rr [|? ?]]]; try (simpl in Hd; discriminate Hd).
+    cbn [den] in Hd. destruct (op_eqb (sx_op y) OpFlagOnlyGroup) eqn:Ey; [discriminate Hd|].
+    destruct (den y st) as [[y' st1]|] eqn:Edy; [|discriminate Hd].
+    cbn [walk_a] in Hf. destruct (walk_a true y) as [ys sy] eqn:Ewy.
+    destruct (String.eqb (sx_val rr) "{0,1}"); [inversion Hf; reflexivity|].
+    destruct (String.eqb (sx_val rr) "{1,}"); [inversion Hf; reflexivity|].
+    destruct (String.eqb (sx_val rr) "{0,}"); [inversion Hf; reflexivity|].
+    destruct (String.eqb (sx_val rr) "{0}").
+    { destruct (true && hasCapture y); inversion Hf. reflexivity. }
+    destruct (String.eqb (sx_val rr) "{1}").
+    { cbn [fst] in Hf. subst ys. apply (IHin y (or_introl eq_refl) st (y', st1) Edy Ey f). rewrite Ewy. reflexivity. }
+    inversion Hf. reflexivity.
+  - (* Capture *) destruct args as [|y [|? ?]]; try (simpl in Hd; discriminate Hd). cbn [walk_a] in Hf.
+    destruct (walk_a true y). inversion Hf. reflexivity.
+  - (* NamedCapture *) destruct args as [|y [|nm [|? ?]]]; try (simpl in Hd; discriminate Hd). cbn [walk_a] in Hf.
+    destruct (walk_a true y). inversion Hf. reflexivity.
+  - (* Group *) destruct args as [|y [|? ?]]; try (simpl in Hd; discriminate Hd).
+    cbn [den] in Hd. destruct (den y st) as [[y' st1]|] eqn:Edy; [|discriminate Hd].
+    rewrite walk_a_group in Hf. destruct (atom_op (sx_op y)) eqn:Eat.
+    + apply (IHin y (or_introl eq_refl) st (y', st1) Edy); [|exact Hf].
+      unfold not_fo. destruct (sx_op y); try reflexivity; discriminate Eat.
+    + inversion Hf. reflexivity.
+  - (* GroupWithFlags *) destruct args as [|y [|fl [|? ?]]]; try (simpl in Hd; discriminate Hd). cbn [walk_a] in Hf.
+    destruct (walk_a true y). inversion Hf. reflexivity.
+  - (* FlagOnlyGroup *) leafQ.
+Qed.
+
+Corollary emits_operand_holds x st r : den x st = Some r -> op_eqb (sx_op x) OpFlagOnlyGroup = false ->
+  op_eqb (sx_op (seq_node (fst (walk_a true x)))) OpFlagOnlyGroup = false.
+Proof.
+  intros Hd Hn. destruct (fst (walk_a true x)) as [|f [|g l]] eqn:E; [reflexivity| |reflexivity].
+  cbn [seq_node]. exact (emit_not_flagonly x st r Hd Hn f E).
+Qed.
+
 (* ---------- how den changes the elaboration state ---------- *)
 Fixpoint anyb {A} (f : A -> bool) (l : list A) : bool := match l with [] => false | x :: r => f x || anyb f r end.
 
@@ -77,6 +186,9 @@ Proof.
     apply IHr. intros z Hz. apply G. right. exact Hz. }
   rewrite E, andb_false_r, orb_false_r. destruct o; try reflexivity; discriminate Ho.
 Qed.
+
+Lemma leaks_not_fo x : leaks x = false -> op_eqb (sx_op x) OpFlagOnlyGroup = false.
+Proof. destruct x as [o v a]. rewrite leaks_X. destruct o; try reflexivity. discriminate. Qed.
 
 Definition st_fl_same (a b : dst) : Prop := d_fl b = d_fl a.
 Definition st_cnt_same (a b : dst) : Prop := d_next b = d_next a /\ d_names b = d_names a.
@@ -492,10 +604,6 @@ Definition merge_okS (x : sx) (rest : list sx) : bool :=
 Definition fold_okS (x : sx) (rest : list sx) (n : nat) : bool :=
   fold_ok x rest n && negb (hasCapture x) && negb (leaks x).
 
-(* what walk_a emits for the operand of a quantifier can stand as an operand *)
-Definition emits_operand (x : sx) : bool :=
-  negb (op_eqb (sx_op (seq_node (fst (walk_a true x)))) OpFlagOnlyGroup).
-
 Fixpoint guardsS (ff : bool) (e : sx) {struct e} : bool :=
   match e with
   | X OpConcat _ args =>
@@ -508,8 +616,8 @@ Fixpoint guardsS (ff : bool) (e : sx) {struct e} : bool :=
              | O => guardsS ff x &&
                  match concat_step true x rest with
                  | CNone => gc rest O
-                 | CMerge => merge_okS x rest && emits_operand x && gc rest 1
-                 | CFold n => fold_okS x rest n && emits_operand x && gc rest n
+                 | CMerge => merge_okS x rest && gc rest 1
+                 | CFold n => fold_okS x rest n && gc rest n
                  end
              end
          end) args O
@@ -520,10 +628,10 @@ Fixpoint guardsS (ff : bool) (e : sx) {struct e} : bool :=
            | None => (fix ga (l : list sx) : bool := match l with [] => true | x :: r => guardsS ff x && ga r end) args
            end
   | X OpGroup _ [x] | X OpCapture _ [x] | X OpNamedCapture _ [x; _] | X OpGroupWithFlags _ [x; _] => guardsS ff x
-  | X OpStar _ [x] | X OpPlus _ [x] | X OpQuestion _ [x] => guardsS ff x && emits_operand x
+  | X OpStar _ [x] | X OpPlus _ [x] | X OpQuestion _ [x] => guardsS ff x
   | X OpNonGreedy _ [q] => quant_node q && guardsS ff q
   | X OpRepeat _ [x; r] =>
-      guardsS ff x && emits_operand x &&
+      guardsS ff x &&
       (if String.eqb (sx_val r) "{0}" then hasCapture x || negb (leaks x) else true)
   | X OpCharClass v _ =>
       match simplifyCharClass true e with
@@ -553,8 +661,8 @@ Fixpoint gcS (l : list sx) (skip : nat) {struct l} : bool :=
       | O => guardsS ff x &&
           match concat_step true x rest with
           | CNone => gcS rest O
-          | CMerge => merge_okS x rest && emits_operand x && gcS rest 1
-          | CFold n => fold_okS x rest n && emits_operand x && gcS rest n
+          | CMerge => merge_okS x rest && gcS rest 1
+          | CFold n => fold_okS x rest n && gcS rest n
           end
       end
   end.
@@ -620,32 +728,28 @@ Proof.
   intros Hq IH ff Hg g st xq st' Hfd Hs. destruct q as [qo qv qargs].
   destruct qo; try discriminate Hq.
   - (* Star *)
-    destruct qargs as [|x [|? ?]]; try discriminate Hq. cbn [guardsS] in Hg. apply andb_true_iff in Hg as [Hg Hem].
-    apply denq_inv in Hs as (Hfo & x' & Ex & Hb).
+    destruct qargs as [|x [|? ?]]; try discriminate Hq. cbn [guardsS] in Hg.
+    apply denq_inv in Hs as (Hfo & x' & Ex & Hb). pose proof (emits_operand_holds x st _ Ex Hfo) as Hem.
     destruct (IH x (or_introl eq_refl) ff Hg st x' st' (fd_child _ _ _ _ _ x st Hfd (or_introl eq_refl) eq_refl) Ex) as (ys & Hys & Hc).
-    unfold emits_operand in Hem. apply negb_true_iff in Hem.
     cbn [dropped_repeat walk_a]. destruct (walk_a true x) as [xs sc]. cbn [fst] in *.
     apply (wrap_quantS g OpStar "*" xs ys x' xq st st'); auto.
   - (* Plus *)
-    destruct qargs as [|x [|? ?]]; try discriminate Hq. cbn [guardsS] in Hg. apply andb_true_iff in Hg as [Hg Hem].
-    apply denq_inv in Hs as (Hfo & x' & Ex & Hb).
+    destruct qargs as [|x [|? ?]]; try discriminate Hq. cbn [guardsS] in Hg.
+    apply denq_inv in Hs as (Hfo & x' & Ex & Hb). pose proof (emits_operand_holds x st _ Ex Hfo) as Hem.
     destruct (IH x (or_introl eq_refl) ff Hg st x' st' (fd_child _ _ _ _ _ x st Hfd (or_introl eq_refl) eq_refl) Ex) as (ys & Hys & Hc).
-    unfold emits_operand in Hem. apply negb_true_iff in Hem.
     cbn [dropped_repeat walk_a]. destruct (walk_a true x) as [xs sc]. cbn [fst] in *.
     apply (wrap_quantS g OpPlus "+" xs ys x' xq st st'); auto.
   - (* Question *)
-    destruct qargs as [|x [|? ?]]; try discriminate Hq. cbn [guardsS] in Hg. apply andb_true_iff in Hg as [Hg Hem].
-    apply denq_inv in Hs as (Hfo & x' & Ex & Hb).
+    destruct qargs as [|x [|? ?]]; try discriminate Hq. cbn [guardsS] in Hg.
+    apply denq_inv in Hs as (Hfo & x' & Ex & Hb). pose proof (emits_operand_holds x st _ Ex Hfo) as Hem.
     destruct (IH x (or_introl eq_refl) ff Hg st x' st' (fd_child _ _ _ _ _ x st Hfd (or_introl eq_refl) eq_refl) Ex) as (ys & Hys & Hc).
-    unfold emits_operand in Hem. apply negb_true_iff in Hem.
     cbn [dropped_repeat walk_a]. destruct (walk_a true x) as [xs sc]. cbn [fst] in *.
     apply (wrap_quantS g OpQuestion "?" xs ys x' xq st st'); auto.
   - (* Repeat *)
     destruct qargs as [|x [|r [|? ?]]]; try discriminate Hq. cbn [guardsS] in Hg.
-    apply andb_true_iff in Hg as [Hg H0]. apply andb_true_iff in Hg as [Hg Hem].
-    apply denq_inv in Hs as (Hfo & x' & Ex & Hb). cbn [rep_text] in Hb.
+    apply andb_true_iff in Hg as [Hg H0].
+    apply denq_inv in Hs as (Hfo & x' & Ex & Hb). cbn [rep_text] in Hb. pose proof (emits_operand_holds x st _ Ex Hfo) as Hem.
     destruct (IH x (or_introl eq_refl) ff Hg st x' st' (fd_child _ _ _ _ _ x st Hfd (or_introl eq_refl) eq_refl) Ex) as (ys & Hys & Hc).
-    unfold emits_operand in Hem. apply negb_true_iff in Hem.
     cbn [dropped_repeat walk_a]. destruct (walk_a true x) as [xs sc]. cbn [fst] in *.
     destruct (String.eqb_spec (sx_val r) "{0,1}") as [E|_].
     { rewrite E in *. cbn [String.eqb Ascii.eqb Bool.eqb orb andb fst].
@@ -715,7 +819,7 @@ Proof.
         eapply rel_trans; [apply rel_cat_list_app|].
         eapply rel_trans; [apply rel_cat; [exact Hc1|exact Hc2]|]. apply rel_sym, rel_cat_list_cons.
       * (* xx* => x+ *)
-        apply andb_true_iff in Hg as [Hm Hg]. apply andb_true_iff in Hm as [Hm Hem]. unfold merge_okS in Hm.
+        apply andb_true_iff in Hg as [Hm Hg]. unfold merge_okS in Hm.
         destruct rest as [|[so sv sargs] rest']; [discriminate|].
         destruct so; try discriminate Hm. destruct sargs as [|y0 [|? ?]]; try discriminate Hm.
         apply andb_true_iff in Hm as [Hm Hlk]. apply andb_true_iff in Hm as [Hm Hcap].
@@ -723,7 +827,7 @@ Proof.
         apply negb_true_iff in Hlk. apply negb_true_iff in Hcap.
         pose proof (den_neutral x st x' st1 Hcap Hlk Ex) as Est. subst st1.
         pose proof (consumes_s_sound x st x' st Hcons Ex) as Hcx.
-        unfold emits_operand in Hem. apply negb_true_iff in Hem.
+        pose proof (emits_operand_holds x st _ Ex (leaks_not_fo x Hlk)) as Hem.
         (* the elaboration of the star *)
         cbn [denL] in Er. cbn [den] in Er.
         destruct (op_eqb (sx_op x) OpFlagOnlyGroup) eqn:Efo; [discriminate|]. rewrite Ex in Er. cbn [sx_op option_map quant_build] in Er.
@@ -746,14 +850,14 @@ Proof.
         apply rel_sym.
         eapply rel_trans; [apply rel_cat_list_cons|]. apply rel_cat; [apply rel_refl|]. apply rel_cat_list_cons.
       * (* run-length folding *)
-        apply andb_true_iff in Hg as [Hf Hg]. apply andb_true_iff in Hf as [Hf Hem]. unfold fold_okS in Hf.
+        apply andb_true_iff in Hg as [Hf Hg]. unfold fold_okS in Hf.
         apply andb_true_iff in Hf as [Hf Hlk]. apply andb_true_iff in Hf as [Hf Hcap].
         apply negb_true_iff in Hlk. apply negb_true_iff in Hcap. unfold fold_ok in Hf.
         apply andb_true_iff in Hf as [Hf Hall]. apply andb_true_iff in Hf as [Hf Hlen].
         apply andb_true_iff in Hf as [H1 H64].
         apply Nat.leb_le in H1. apply Nat.leb_le in H64. apply Nat.leb_le in Hlen.
         pose proof (den_neutral x st x' st1 Hcap Hlk Ex) as Est. subst st1.
-        unfold emits_operand in Hem. apply negb_true_iff in Hem.
+        pose proof (emits_operand_holds x st _ Ex (leaks_not_fo x Hlk)) as Hem.
         assert (Hneun : forall y, In y (firstn n rest) -> hasCapture y = false /\ leaks y = false).
         { intros y Hy. rewrite forallb_forall in Hall. specialize (Hall y Hy). apply sx_eqb_eq in Hall. subst y. split; assumption. }
         destruct (IHl HPr n st rs st' Hg Hfdr Hneun Er) as (ys2 & Hys2 & Hc2).
@@ -1201,6 +1305,27 @@ Proof.
   - exact (chain_sound [t] t1 H).
   - apply (chain_sound [] t1). cbn [chain_ok]. rewrite H. reflexivity.
 Qed.
+
+From GC Require Import Proofs_RegexPrint.
+Local Open Scope string_scope.
+
+(* the rewrite the checker reports (two-pass driver) is the text of [final_tree] *)
+Theorem final_text pat t1 t2f final :
+  simplify2 pat t1 t2f = Some final -> final = print (final_tree t1 (t2f (simplify1 t1))).
+Proof.
+  unfold simplify2, simplify2_g. destruct (Nat.ltb 60 (String.length pat)); [discriminate|].
+  fold simplify1. set (c1 := simplify1 t1).
+  destruct (String.eqb_spec c1 "") as [|N1]; [discriminate|].
+  destruct (simplify1_print t1) as [E|E]; [contradiction|]. fold c1 in E.
+  unfold final_tree. destruct (t2f c1) as [t2|].
+  - destruct (String.eqb_spec (simplify1 t2) "") as [E2|N2].
+    + destruct (_ || _); [discriminate|]. intros H. inversion H. congruence.
+    + destruct (simplify1_print t2) as [F|F]; [contradiction|].
+      destruct (_ || _); [discriminate|]. intros H. inversion H. congruence.
+  - destruct (_ || _); [discriminate|]. intros H. inversion H. congruence.
+Qed.
+
+Local Open Scope nat_scope.
 
 (* satisfiable: a capture group with a factored alternation, a named group, a flag group, a dropped {1} *)
 Definition ex_capture_factor : sx :=
